@@ -297,6 +297,14 @@ func (in *Interp) conv(dst, src types.Type, x Value) Value {
 			}
 			switch {
 			case t.T.K == KInt && dt.K == KInt:
+				if in.cfg.Arith == "int" && t.T.S && !dt.S && dt.W > t.T.W && !t.IsConst() && in.ex != nil {
+					// integer back-end: split sign extension into an unsigned type on the sign, so that the
+					// non-negative case is a zero extension with statically known zero high bits
+					// (semantics-preserving fork; the infeasible side costs one query)
+					if !in.decide(tb.Lt(t, tb.Const(t.T, 0))) {
+						return tb.Conv(tb.Conv(t, Typ{KInt, t.T.W, false}), dt)
+					}
+				}
 				return tb.Conv(t, dt)
 			case t.T.K == KInt && dt.K == KFloat:
 				return tb.I2F(t, dt)
